@@ -4,11 +4,15 @@
    must_match is False.  C05_present_value_is_found: if there is a first match, get returns its data whatever
    the value is (None, 0, False, '', [], {}) and whatever the default.  C05_default_*: no match: the constant,
    or the callable's result with the callable invoked exactly once, after the search.
+   C05_get_match_for_every_budget: whatever the action budget, get_match returns the first result of the
+   specification (a well-formed match), or reports that there is none (MatchNotFoundError /
+   NestedMatchNotFoundError / None), or re-raises the filter exception that precedes every result, or dies of a
+   budget exception (F1): never a later match, never a wrong 'not found'.
    find = data of find_matches is definitional in the model (one iterator, the observation projects the data):
    it is tied to the code by the correspondence (ValueTraverser / NestedValueTraverser). *)
 From Coq Require Import List ZArith String Bool PArith.
 From TP Require Import Json PyPrim Machine Api Spec SpecHas.
-From TP.proofs Require Import RefineBase Refine NextLayer Iterate WfRun Query SpecLemmas Top HasScan HasLoop HasRefine ApiTop HasLemmas.
+From TP.proofs Require Import RefineBase Refine NextLayer Iterate WfRun Query SpecLemmas Top HasScan HasLoop HasRefine ApiTop HasLemmas FirstNext.
 Import ListNotations.
 
 Theorem C05_get_match_is_first_next : forall B H depth src p must tr,
@@ -53,3 +57,17 @@ Theorem C05_iterator : forall B H depth (src : @source json) (vp : list (vertex 
       sound_prefix (@hpred json) (@eval_h json jshape (fun d => d) B H depth) (seval_h depth) src vp tr d.
 Proof. exact api_iterator. Qed.
 Print Assumptions C05_iterator.
+
+Theorem C05_get_match_for_every_budget :
+  forall (B H : positive) (depth : nat) (src : @source json) (p : list (vertex (@hpred json))) (must : bool)
+         (tr : @tracecfg json),
+    src_wf src ->
+    let r := fst (@get_match json jshape (fun d => d) B H depth src p must tr) in
+    let ans := answer (@hpred json) (seval_h depth) src p tr in
+    (exists m, r = Ok (Some m) /\ wf m /\ hd_error (sresults (fst ans)) = Some (abs m)) \/
+    (r = (if must then Exn (not_found src) else Ok None) /\ sresults (fst ans) = [] /\ snd ans = None) \/
+    (exists e, snd ans = Some e /\ sresults (fst ans) = [] /\
+               r = match e with EStop => if must then Exn (not_found src) else Ok None | _ => Exn e end) \/
+    (exists e, r = Exn e /\ budget_exn e = true).
+Proof. exact get_match_spec. Qed.
+Print Assumptions C05_get_match_for_every_budget.
